@@ -86,3 +86,82 @@ R.contract(
 R.contracts[CTX_ + "Statistic.on_scenario_finished"].effects = {"recorded": "ghost('recorded') + 1"}
 R.contracts[CTX_ + "Statistic.on_scenario_finished"].requires_are_representation_invariant = True
 R.contracts[CTX_ + "Statistic.on_scenario_finished"].call_ensures = {}  # (on_event only needs to know that the scenario was handed over)
+
+
+# ------------------------------------------------------------------------------------------------- _execute: every event reaches the context and every handler; the process exits with the context's code
+EXE = "schemathesis.cli.commands.run.executor:"
+
+
+def _sys_exit(it, a, k):
+    from pyvc.interp import PyExc
+
+    it.ghost["exit_status"] = a[0] if a else 0
+    raise PyExc(it.make_exc(it.resolve_exc_class("SystemExit", None), ()))
+
+
+R.extern["sys.exit"] = _sys_exit
+R.exception_classes["Abort"] = "Exception"
+R.exception_classes["HandlerBug"] = "Exception"
+R.extern["click.Abort"] = lambda it, a, k: it.resolve_exc_class("Abort", None)
+
+
+def _handler_methods(i):
+    def start(it, obj, a, k):
+        it.ghost["log"] = it.ghost["log"] + [("start", i)]
+
+    def shutdown(it, obj, a, k):
+        it.ghost["log"] = it.ghost["log"] + [("shutdown", i)]
+
+    def handle_event(it, obj, a, k):
+        from pyvc.interp import PyExc
+
+        it.ghost["log"] = it.ghost["log"] + [("handle", i, a[1])]
+        outcome = it.path.choose([("ok", True), ("HandlerBug", True), ("Abort", True)], f"handler{i}")
+        if outcome != "ok":
+            it.ghost["handler_failed"] = outcome
+            raise PyExc(it.make_exc(it.resolve_exc_class(outcome, None), ()))
+
+    return {"start": start, "shutdown": shutdown, "handle_event": handle_event}
+
+
+for _i in range(2):
+    R.nominal_methods[f"spec:Handler{_i}"] = _handler_methods(_i)
+R.contract(EXE + "initialize_handlers", args={"config": Opq("Any")}, trusted=True,
+           returns=lambda it, env: [__import__("pyvc.values", fromlist=["VObj"]).VObj(it.resolve_class(f"spec:Handler{i}"), {}) for i in range(2)],
+           note="the report writers and the output handler (two stand for any number: the loops treat them alike)")
+R.contract("schemathesis.cli.commands.run.handlers:display_handler_error", args={"handler": Opq("Any"), "exc": Opq("Any")}, returns=NoneT, trusted=True, effects={"displayed": "ghost('displayed') + 1"}, note="prints the handler's traceback")
+
+
+def _ctx_on_event(it, obj, a, k):
+    it.ghost["log"] = it.ghost["log"] + [("ctx", a[0])]
+    # (ExecutionContext.on_event, verified above: failures / errors set exit_code to 1, nothing resets it)
+    obj.fields["exit_code"] = Choice(0, 1).make(it, it.path.fresh("exit_code"))
+
+
+R.nominal_methods["spec:RunContext"] = {"on_event": _ctx_on_event}
+R.contract(CTX_ + "ExecutionContext", abstract_only=True, args={}, note="dataclass constructor",
+           returns=lambda it, env: it.ghost.__setitem__("ctx", __import__("pyvc.values", fromlist=["VObj"]).VObj(it.resolve_class("spec:RunContext"), {"exit_code": 0})) or it.ghost["ctx"])
+EVENTS = "[e for e in event_stream]"
+R.contract(
+    EXE + "_execute",
+    prop="C05",
+    args={"event_stream": ListOf(Opq("EngineEvent"), [0, 1, 2]), "config": Obj("spec:RunConfig", output=Opq("OutputConfig"), engine=Obj("spec:EngCfg", execution=Obj("spec:ExecCfg", seed=Opt(Int))))},
+    ghost={"log": [], "exit_status": None, "handler_failed": None, "displayed": 0, "ctx": None},
+    raises=["SystemExit", "HandlerBug"],
+    raises_ensures={
+        # "reaches the report and exit code": every event of the stream goes to the context FIRST and then to every handler, in stream order ...
+        "every_event_reaches_the_context_and_every_handler_in_order": "implies(ghost('handler_failed') is None, [x for x in ghost('log') if x[0] in ('ctx', 'handle')] == "
+                                                                      "[y for e in event_stream for y in (('ctx', e), ('handle', 0, e), ('handle', 1, e))])",
+        # ... and the process exit status is the context's exit code
+        "exit_status_is_the_contexts_exit_code": "implies(ghost('handler_failed') is None, raised == 'SystemExit' and ghost('exit_status') == ghost('ctx').exit_code)",
+        # a crashing handler is never swallowed: its error is shown and propagates (non-zero exit); a handled abort exits with 1
+        "a_handler_error_is_shown_and_ends_the_run_non_zero": "implies(ghost('handler_failed') == 'HandlerBug', raised == 'HandlerBug' and ghost('displayed') == 1) and "
+                                                              "implies(ghost('handler_failed') == 'Abort', raised == 'SystemExit' and ghost('exit_status') == 1 and ghost('displayed') == 0)",
+        # report files are completed in every case
+        "every_handler_is_started_first_and_shut_down_last": "ghost('log')[:2] == [('start', 0), ('start', 1)] and ghost('log')[-2:] == [('shutdown', 0), ('shutdown', 1)]",
+    },
+    ensures={"never_returns_normally": "False"},
+    bounded_note="event streams of up to 2 events, 2 handlers",
+    replayable=False,
+)
+
